@@ -166,6 +166,10 @@ pub struct Recorder {
     /// keep only counts (for huge inputs)
     pub light: bool,
     pub action_count: u64,
+    /// logical clock for parsers that build their tree only at the end (LR): abort after this
+    /// many semantic action calls
+    pub max_actions: u64,
+    pub clock_exceeded: bool,
 }
 
 impl<'t> UserActionsTrait<'t> for Recorder {
@@ -176,6 +180,12 @@ impl<'t> UserActionsTrait<'t> for Recorder {
     ) -> parol_runtime::Result<()> {
         self.seq += 1;
         self.action_count += 1;
+        if self.action_count > self.max_actions {
+            self.clock_exceeded = true;
+            return Err(ParolError::UserError(anyhow::anyhow!(
+                "pv: logical clock budget exceeded (semantic actions)"
+            )));
+        }
         if !self.light {
             self.actions.push(ActionEvent {
                 seq: self.seq,
@@ -368,6 +378,7 @@ pub fn new_stream<'t>(
 pub fn parse(b: &Built, input: &str, o: &Opts) -> Outcome {
     let mut rec = Recorder {
         light: o.light,
+        max_actions: o.budget,
         ..Default::default()
     };
     let mut tree = TreeRec::new(o.budget, o.keep_tree);
@@ -411,7 +422,7 @@ pub fn parse(b: &Built, input: &str, o: &Opts) -> Outcome {
         }
     });
     let chars = CHARS_SCANNED.with(|c| c.get()) - chars0;
-    let clock_exceeded = tree.events > tree.budget;
+    let clock_exceeded = tree.events > tree.budget || rec.clock_exceeded;
     let unbalanced = tree.unbalanced || (tree.keep && !tree.stack.is_empty());
     let (ok, err, panic) = match res {
         Ok(Ok(())) => (true, None, None),
